@@ -1,5 +1,6 @@
 import Bifrost.Model.Pubsub
 import Bifrost.Lemmas.PubsubExec
+import Bifrost.Lemmas.PubsubCtl
 import Bifrost.Lemmas.Solicit
 import Bifrost.Props.C10
 /-!
@@ -41,6 +42,160 @@ theorem opener_self (a : Bytes) : opensStream a a = true := by
   unfold opensStream
   rw [lexLt_irrefl]
   rfl
+
+/-! ### the real controller: one opener per link, for every local identity of a node
+
+`Pubsub.Ctl` is the link table of ONE pubsub controller (`HandleValueAdded/Removed`, the
+`incLinks` loop, the link trackers). A controller serves every local identity of its node: each
+link carries its own `localId`. -/
+
+/-- The controller opens a stream only on a link for which the link's OWN local identity is the
+opening side — in every history of links added, removed, re-added, trackers replaced and run, and
+whatever other identities the node's other links have. -/
+theorem ctl_opens_only_as_opener (evs : List Ctl.Ev) (l : Ctl.Link) (h : l ∈ (Ctl.run {} evs).opened) :
+    opensStream l.localId l.remoteId = true :=
+  Ctl.run_openedOk {} evs Ctl.init_openedOk l h
+
+/-- Never both: the two nodes' controllers (any histories, any number of identities on either
+node) never both open a stream on the same link between two distinct peer ids. -/
+theorem ctl_never_both_open (evsX evsY : List Ctl.Ev) (u : Nat) (a b : Bytes) (hab : a ≠ b) :
+    ¬ ((⟨u, a, b⟩ : Ctl.Link) ∈ (Ctl.run {} evsX).opened ∧ (⟨u, b, a⟩ : Ctl.Link) ∈ (Ctl.run {} evsY).opened) := by
+  rintro ⟨hx, hy⟩
+  have h1 := ctl_opens_only_as_opener evsX _ hx
+  have h2 := ctl_opens_only_as_opener evsY _ hy
+  have := opener_xor a b hab
+  simp only at h1 h2
+  rw [h1, h2] at this
+  cases this
+
+/-- A link handed to the controller gets a tracker at the next pass of the loop. -/
+theorem ctl_added_is_tracked (s : Ctl.State) (l : Ctl.Link) :
+    l ∈ (Ctl.step (Ctl.step s (.added l)) .loop).tracked := by
+  simp [Ctl.step]
+
+/-- Never neither, exactly one: once the tracker of the link has run on both nodes, exactly one
+of the two ends has opened the stream, and it stays that way whatever happens afterwards on
+either node (more links of other identities, removals, re-adds). -/
+theorem ctl_exactly_one_opener (evsX evsY postX postY : List Ctl.Ev) (kx ky u : Nat) (a b : Bytes) (hab : a ≠ b)
+    (hx : (Ctl.run {} evsX).tracked[kx]? = some ⟨u, a, b⟩)
+    (hy : (Ctl.run {} evsY).tracked[ky]? = some ⟨u, b, a⟩) :
+    ((⟨u, a, b⟩ : Ctl.Link) ∈ (Ctl.run {} (evsX ++ .track kx :: postX)).opened ∧
+        (⟨u, b, a⟩ : Ctl.Link) ∉ (Ctl.run {} (evsY ++ .track ky :: postY)).opened) ∨
+    ((⟨u, a, b⟩ : Ctl.Link) ∉ (Ctl.run {} (evsX ++ .track kx :: postX)).opened ∧
+        (⟨u, b, a⟩ : Ctl.Link) ∈ (Ctl.run {} (evsY ++ .track ky :: postY)).opened) := by
+  have opens : ∀ (evs post : List Ctl.Ev) (k : Nat) (l : Ctl.Link), (Ctl.run {} evs).tracked[k]? = some l →
+      opensStream l.localId l.remoteId = true → l ∈ (Ctl.run {} (evs ++ .track k :: post)).opened := by
+    intro evs post k l hk ho
+    rw [Ctl.run_append, Ctl.run_cons]
+    apply Ctl.run_opened_mono
+    simp [Ctl.step, hk, ho]
+  rcases opener_exactly_one a b hab with ⟨h1, h2⟩ | ⟨h1, h2⟩
+  · left
+    refine ⟨opens evsX postX kx _ hx h1, fun hin => ?_⟩
+    have := ctl_opens_only_as_opener _ _ hin
+    simp only at this
+    rw [h2] at this
+    cases this
+  · right
+    refine ⟨fun hin => ?_, opens evsY postY ky _ hy h2⟩
+    have := ctl_opens_only_as_opener _ _ hin
+    simp only at this
+    rw [h1] at this
+    cases this
+
+/-- Why the rule must use the link's own local identity: with the local identity computed once
+per controller (`Ctl.stepCached`), a node with the identities [1] and [3] and a remote peer [2]
+(base58 texts "2" < "3" < "4") opens the link [3]–[2] although the remote end opens it too. -/
+theorem ctl_cached_identity_both_open :
+    (⟨2, [3], [2]⟩ : Ctl.Link) ∈
+      (Ctl.runCached {} [.added ⟨1, [1], [2]⟩, .loop, .track 0, .added ⟨2, [3], [2]⟩, .loop, .track 0]).opened ∧
+    (⟨2, [2], [3]⟩ : Ctl.Link) ∈ (Ctl.run {} [.added ⟨2, [2], [3]⟩, .loop, .track 0]).opened := by
+  decide
+
+/-- Non-vacuity: the real rule on the same history opens only the link of identity [1]. -/
+example : (Ctl.run {} [.added ⟨1, [1], [2]⟩, .loop, .track 0, .added ⟨2, [3], [2]⟩, .loop, .track 0]).opened =
+    [⟨1, [1], [2]⟩] := by decide
+
+/-! ### announcements reach a peer that reads slowly; a closed session leaves nothing behind -/
+
+/-- The per-session send queue loses and re-orders nothing: in every interleaving of
+`writePacket` calls, the session goroutine and the stream, what `writePacket` accepted is exactly
+what was written to the stream, followed by the packet in flight, followed by the queue. A full
+queue makes `writePacket` wait (the `write` step changes nothing but the ghost counter). -/
+theorem sendq_lossless (cap : Nat) (evs : List SendQ.Ev) :
+    (SendQ.run { cap := cap } evs).accepted =
+      (SendQ.run { cap := cap } evs).delivered ++ (SendQ.run { cap := cap } evs).inflight.toList ++
+        (SendQ.run { cap := cap } evs).queue :=
+  SendQ.run_lossless _ evs rfl
+
+theorem sendq_bounded (cap : Nat) (evs : List SendQ.Ev) : (SendQ.run { cap := cap } evs).queue.length ≤ cap := by
+  have := SendQ.run_bounded { cap := cap } evs (Nat.zero_le _)
+  have hc : ∀ (s : SendQ.State) (l : List SendQ.Ev), (SendQ.run s l).cap = s.cap := by
+    intro s l
+    induction l generalizing s with
+    | nil => rfl
+    | cons e t ih => exact (ih _).trans (SendQ.step_cap s e)
+  rw [hc] at this
+  exact this
+
+/-- Once the peer has read everything (nothing queued, nothing in flight) it has received every
+packet `writePacket` accepted, in order — in particular every `Subscribe=false` the sweep queued
+(`Exec.told`), however long the peer had stopped reading. -/
+theorem sendq_drained_all_delivered (cap : Nat) (evs : List SendQ.Ev)
+    (hq : (SendQ.run { cap := cap } evs).queue = []) (hi : (SendQ.run { cap := cap } evs).inflight = none) :
+    (SendQ.run { cap := cap } evs).delivered = (SendQ.run { cap := cap } evs).accepted := by
+  have := sendq_lossless cap evs
+  rw [hq, hi] at this
+  simpa using this.symm
+
+/-- A full queue blocks the caller: nothing is accepted, nothing is lost. -/
+theorem sendq_full_blocks (s : SendQ.State) (p : Nat) (h : ¬ s.queue.length < s.cap) :
+    (SendQ.step s (.write p)).accepted = s.accepted ∧ (SendQ.step s (.write p)).queue = s.queue ∧
+      (SendQ.step s (.write p)).delivered = s.delivered := by
+  simp [SendQ.step, h]
+
+/-- The variant that returns from `writePacket` when the queue is full loses packets: capacity 1,
+two writes, then the peer reads everything — the second packet was accepted and never delivered. -/
+theorem sendq_drop_variant_loses :
+    (SendQ.runDrop { cap := 1 } [.write 1, .write 2, .take, .flush, .take, .flush]).accepted = [1, 2] ∧
+    (SendQ.runDrop { cap := 1 } [.write 1, .write 2, .take, .flush, .take, .flush]).delivered = [1] ∧
+    (SendQ.runDrop { cap := 1 } [.write 1, .write 2, .take, .flush, .take, .flush]).queue = [] := by
+  decide
+
+example : (SendQ.run { cap := 1 } [.write 1, .write 2, .take, .flush, .write 2, .take, .flush]).delivered = [1, 2] := by decide
+
+/-- When the registered session of a (peer, link) tuple ends, the router forgets what the peer
+announced over it. -/
+theorem recv_closed_session_forgotten (s : Recv.State) (k : Nat) (h : s.cur = some k) :
+    (Recv.step s (.endS k)).know = [] ∧ (Recv.step s (.endS k)).cur = none := by
+  simp [Recv.step, h]
+
+/-- So a session that starts after the previous one ended knows exactly what the peer announced
+IN THAT SESSION (its initial set and every later change, in order) — whatever the closed session
+had announced. -/
+theorem recv_reconnected_session_exact (s : Recv.State) (k : Nat) (h : s.cur = some k) (anns : List (Nat × Bool)) :
+    (Recv.run (Recv.step (Recv.step s (.endS k)) .start)
+        (anns.map fun a => Recv.Ev.recv (Recv.step s (.endS k)).next a.1 a.2)).know =
+      anns.foldl Exec.applyChange [] := by
+  have hk : (Recv.step (Recv.step s (.endS k)) .start).live.contains (Recv.step s (.endS k)).next = true := by
+    simp [Recv.step]
+  rw [Recv.run_recvs _ _ hk]
+  simp [Recv.step, h]
+
+/-- Non-vacuity: session 0 announced channel 7 and ended; session 1 of the same tuple announces 8, 9
+and withdraws 8: the router lists the peer under 9 only. -/
+example : (Recv.run (Recv.step (Recv.step (Recv.run {} [.start, .recv 0 7 true]) (.endS 0)) .start)
+    ([(8, true), (9, true), (8, false)].map fun a => Recv.Ev.recv (Recv.step (Recv.run {} [.start, .recv 0 7 true]) (.endS 0)).next a.1 a.2)).know = [9] := by
+  rw [recv_reconnected_session_exact _ 0 (by decide)]
+  decide
+
+/-- Before the fix the subscriptions of a closed session survived: the peer announces channel 7,
+the session ends, the same tuple connects again announcing nothing — the router still lists it
+under channel 7 (and, the peer having released the channel while the link was down, is never told). -/
+theorem recv_closed_session_survived_pre :
+    (Recv.runPre {} [.start, .recv 0 7 true, .endS 0, .start]).know = [7] ∧
+    (Recv.run {} [.start, .recv 0 7 true, .endS 0, .start]).know = [] := by
+  decide
 
 /-! ### after Release the handlers are never invoked -/
 
